@@ -715,14 +715,16 @@ def write_translated(path):
     nam, nerrors = py2lean.generate_names(os.path.join(SRC, "serif"))
     vec, verrors = py2lean.generate_vec(os.path.join(SRC, "serif"))
     tab, terrors = py2lean.generate_tab(os.path.join(SRC, "serif"))
-    rerrors = rerrors + gerrors + aerrors + perrors + nerrors + verrors + terrors
+    srt, serrors = py2lean.generate_sort(os.path.join(SRC, "serif"))
+    rerrors = rerrors + gerrors + aerrors + perrors + nerrors + verrors + terrors + serrors
     for pth, txt in ((path, text), (os.path.join(os.path.dirname(path), "TranslatedRel.lean"), rel),
                      (os.path.join(os.path.dirname(path), "TranslatedGroup.lean"), grp),
                      (os.path.join(os.path.dirname(path), "TranslatedAlias.lean"), ali),
                      (os.path.join(os.path.dirname(path), "TranslatedRepr.lean"), rep),
                      (os.path.join(os.path.dirname(path), "TranslatedNames.lean"), nam),
                      (os.path.join(os.path.dirname(path), "TranslatedVec.lean"), vec),
-                     (os.path.join(os.path.dirname(path), "TranslatedTab.lean"), tab)):
+                     (os.path.join(os.path.dirname(path), "TranslatedTab.lean"), tab),
+                     (os.path.join(os.path.dirname(path), "TranslatedSort.lean"), srt)):
         old = open(pth).read() if os.path.exists(pth) else None
         if old != txt:
             tmp = pth + ".tmp%d" % os.getpid()
